@@ -139,6 +139,7 @@ class Sub:
         # set's iteration order, i.e. a function of the hashes. A workload can choose it.
         self._hashv = hashv
         self.action = None   # callable run inside the callback (e.g. unsubscribe itself)
+        self.delay = 0.0     # an application callback that takes its time
 
     def __hash__(self):
         return object.__hash__(self) if self._hashv is None else self._hashv
@@ -155,6 +156,8 @@ class Sub:
     async def __call__(self, *a, **kw):
         self.calls.append((a, kw))
         self.log.add("SUB.call", name=self.name, args=a, kwargs=kw)
+        if self.delay:
+            await asyncio.sleep(self.delay)
         if self.action is not None:
             act, self.action = self.action, None
             r = act()
